@@ -224,7 +224,9 @@ def message(draw, depth=3, max_avps=8):
     from . import common
     return {"hdr": draw(header()), "avps": avps,
             "how": draw(st.sampled_from(["ctor", "append", "extend", "setter", "mixed"])),
-            "tz": draw(st.sampled_from([None, None, None] + common.TZS))}
+            "tz": draw(st.sampled_from([None, None, None] + common.TZS)),
+            # a second message built from the *header object* of the first one (how error answers and relayed messages are made)
+            "derive": draw(st.sampled_from([None, None, None, "answer", "request"]))}
 
 
 # ------------------------------------------------------------------ reference encoding
